@@ -268,6 +268,27 @@ def dictSet (pick : Entries → Nat) (es : Entries) (k v : GoVal) : Entries :=
 def dictSetSpec (es : Entries) (k v : GoVal) : Entries :=
   (es.filter fun e => !goEqual k e.1) ++ [(k, v)]
 
+/-! ### the exported API: the key is hashed before the table is touched -/
+
+/-- Outcome of `Dict.Get_` / `Set` / `Del`: new contents and result, or the panic raised by `hash`. -/
+inductive ApiRes where
+  | done (es : Entries) (ret : Option GoVal)
+  | panic (msg : String)
+
+def unhashableMsg : String := "unhashable type: "
+
+/-- `Dict.Get_` (after F7 also on an empty Dict). -/
+def apiGet (pick : Entries → Nat) (es : Entries) (k : GoVal) : ApiRes :=
+  if hashable k then .done es (tableGet pick es k) else .panic unhashableMsg
+
+/-- `Dict.Set`: `Del` (which hashes the key first) then `gomap.Set`. -/
+def apiSet (pick : Entries → Nat) (es : Entries) (k v : GoVal) : ApiRes :=
+  if hashable k then .done (dictSet pick es k v) none else .panic unhashableMsg
+
+/-- `Dict.Del`. -/
+def apiDel (pick : Entries → Nat) (es : Entries) (k : GoVal) : ApiRes :=
+  if hashable k then .done (dictDel pick es k) none else .panic unhashableMsg
+
 /-! ### builtin `map[any]any`: Go `==` on interface values -/
 
 mutual
